@@ -63,11 +63,45 @@ def strategy_impl(draw, tier):
         "reverse_mappings": draw(st.booleans()),
         "decoy_first": draw(st.booleans()),
         "layout": draw(st.sampled_from(["C", "C", "F", "view", "neg"])),
+        "arg_types": draw(st.sampled_from(["plain", "plain", "plain", "numpy", "odict", "0d"])),
     }
 
 
 def strategy(tier):
     return strategy_impl(tier)
+
+
+def table_cases():
+    """The finite table behind the resolution rule, in full: 5 positions x 3 rules x 7 sources of rule / fill value x 4 width
+    pairs, on one and on two padded axes (the second axis always under another rule and fill value)."""
+    out = []
+    for pos in ("center", "left", "right", "inner", "outer"):
+        n = 4
+        ax = {"name": "X", "n": n, "positions": ["center"] + ([pos] if pos != "center" else []), "default_shifts": None}
+        ay = {"name": "Y", "n": 3, "positions": ["center"], "default_shifts": None}
+        Lx = gen.pos_len(n, pos)
+        vx = [[float(10 * j + i) for i in range(Lx)] for j in range(3)]
+        for rule in M.RULES:
+            for label, grid, cb, cf in gen.rule_sources(rule):
+                for w in ([1, 0], [0, 2], [2, 1], [Lx, Lx]):
+                    out.append({"axes": [ax], "grid": grid, "call_boundary": cb, "call_fill": cf, "widths": {"X": w}, "data_pos": {"X": pos},
+                                "dims": ["e0", gen.dim_name("X", pos)], "values": vx, "reverse_mappings": False, "decoy_first": False,
+                                "layout": "C", "arg_types": "plain"})
+                # two axes: the per-call choice names X only, Y keeps the grid-level settings
+                g2 = dict(grid, boundary=({"X": grid["boundary"], "Y": "extend"} if grid["boundary"] else {"Y": "extend"}),
+                          fill_value=({"X": grid["fill_value"], "Y": 4.0} if grid["fill_value"] is not None else {"Y": 4.0}))
+                out.append({"axes": [ax, ay], "grid": g2, "call_boundary": None if cb is None else {"X": cb}, "call_fill": None if cf is None else {"X": cf},
+                            "widths": {"X": [1, 2], "Y": [2, 1]}, "data_pos": {"X": pos, "Y": "center"},
+                            "dims": [gen.dim_name("Y", "center"), gen.dim_name("X", pos)], "values": vx, "reverse_mappings": False,
+                            "decoy_first": False, "layout": "C", "arg_types": "plain"})
+    return out
+
+
+def exhaustive_part(tier, seed):
+    from vfw.runner import enumerate_cases
+
+    cases = table_cases()
+    return {"result": enumerate_cases(PROPERTY, cases), "extra": {"enumerated_table_cells": len(cases)}}
 
 
 def model_pad(a, dims, case, by_name, rules, fills):
@@ -163,6 +197,10 @@ def check(case, ctx):
             kw["boundary"] = build.copy_arg(boundary, rev)
         if fill is not None:
             kw["fill_value"] = build.copy_arg(fill, rev)
+        st_ = case.get("arg_types", "plain")
+        if st_ != "plain":
+            kw = {k: build.retype(v, st_) for k, v in kw.items()}
+            return pad(da, grid, boundary_width=build.retype({n: list(w) for n, w in bw.items()}, st_), **kw)
         return pad(da, grid, boundary_width=dict(bw), **kw)
 
     # a call that names nothing per call, before and after the one with per-call arguments: the grid-level settings
